@@ -868,6 +868,25 @@ pub fn exec_targets(case: &TargetsCase, tally: &mut Tally) -> Result<(), Failure
             }
             tally.sum("rounds_observed", 1);
         }
+        // The round must end with a liveness evaluation whatever the sends did (C10 / C12 at the
+        // server level): after >= 5 rounds every heartbeating peer is live, every silent one is
+        // not live, and (before the 20 s grace period is over) is in the dead set.
+        if n_rounds >= 5 && n_peers > 0 && !case.hostname_seed {
+            let peers_real: Vec<chitchat::ChitchatId> = peer_ids.iter().map(|p| p.to_real()).collect();
+            let (live, dead): (Vec<chitchat::ChitchatId>, Vec<chitchat::ChitchatId>) = handle.with_chitchat(|c| (c.live_nodes().cloned().collect(), c.dead_nodes().cloned().collect())).await;
+            for (i, p) in peers_real.iter().enumerate() {
+                let (is_live, is_dead) = (live.contains(p), dead.contains(p));
+                if i < n_live && !is_live {
+                    return vio("C10/server-liveness-not-evaluated", format!("after {n_rounds} gossip rounds peer {i} (a fresh heartbeat every second) is live={is_live} dead={is_dead} at the server (sends failing to peers {:#b})", case.failing_peers));
+                }
+                if i >= n_live && (is_live || (n_rounds < 19 && !is_dead)) {
+                    return vio("C10/server-liveness-not-evaluated", format!("after {n_rounds} gossip rounds peer {i} (one heartbeat observation only) is live={is_live} dead={is_dead} at the server (sends failing to peers {:#b})", case.failing_peers));
+                }
+            }
+            if case.failing_peers != 0 {
+                tally.label("liveness_checked_with_failing_sends");
+            }
+        }
         let _ = tokio::time::timeout(STALL, handle.shutdown()).await;
         if case.hostname_seed && case.seeds & 1 != 0 {
             // 110 isolated rounds after the refresh, one seed drawn uniformly from at most 4 per
